@@ -113,7 +113,7 @@ pub fn run(ctx: &Ctx) {
     );
     ctx.assume("serde_json built with default features (no arbitrary_precision, no preserve_order), as postcard-dyn depends on it");
     let scfg = ShapeCfg { dense_enum_indices: true, borrowed: false, ..ShapeCfg::default() };
-    let n = ctx.tier.pick(80_000, 3_000_000);
+    let n = ctx.tier.pick(800_000, 8_000_000);
     ctx.par_proptest(
         "random-trees",
         n,
@@ -123,7 +123,7 @@ pub fn run(ctx: &Ctx) {
             check(&js, &jv, l)
         },
     );
-    let n = ctx.tier.pick(8_000, 200_000);
+    let n = ctx.tier.pick(40_000, 400_000);
     ctx.par_proptest(
         "wide-and-deep",
         n,
